@@ -146,7 +146,7 @@ def _kf_c01_colliding(case):
     return {k for k, v in seen.items() if len(v) > 1}
 
 
-@finding("KF-C01-1", ["C01", "C10"])
+@finding("KF-C01-1", ["C01", "C10", "C04"])
 class _KF_C01_1:
     @staticmethod
     def trigger(case):
